@@ -1,5 +1,6 @@
 """C15 -- vertex and its precomputed Matsubara storage are transparent."""
 import pmlib
+import pipeline
 
 LEAN_MODULES = ["PomerolModel.Properties.C15"]
 GENERATED = ["mc4", "vertex"]
@@ -84,9 +85,15 @@ def correspondence(ctx):
             ctx.notes["driver"] = l
     if "driver" not in ctx.notes:
         ctx.problem("build", "driver produced no summary", log=dout[-2000:])
+    # the real Vertex4 on real models: value() against chi - chi0 formed independently from the library's own chi and
+    # G values (incl. n1 = n2 = n3, spin-dependent G), operator() against value() inside and outside the window
+    pipeline.numeric_campaign(ctx, ["C15"], ("gf", "vertex"), 10, 150, max_modes_quick=3, max_modes_thorough=4,
+                              ngf=2, nontrivial=lambda meta, sc: False)
 
 
 def replay(ctx, rp):
+    if rp.get("harness") == "pipe":
+        return pipeline.replay(ctx, rp)
     exe = pmlib.build_harness(rp.get("harness", "mc4"))
     rc, out, err = pmlib.run_harness(exe, [], "\n".join(rp["stdin"]) + "\n")
     print(out)
